@@ -29,7 +29,18 @@ EXPLANATION = (
     "the public bindings Or/And/Not, by enumerating the kinds of argument "
     "(absorbing / identity / other, negation already present or not) and the "
     "sizes 0, 1, >= 2 of the accumulator against the path condition "
-    "(sa.flow.guards) of every return, continue and add.  For block states "
+    "(sa.flow.guards) of every return, continue and add.  Nested terms: "
+    "and/or are associative but do not associate with each other, so a "
+    "member that is a term of the SAME connective (`isinstance(arg, cls)`) "
+    "may be kept or replaced by exactly its members, while a term of the "
+    "other connective must stay a member: R18.1 enumerates both kinds of "
+    "nested argument as additional worlds of the loop, and R18.8 decides, "
+    "independently of the loop's shape (work lists, comprehensions, "
+    "pre-passes), that every read of an argument's member set "
+    "(`<x>.conditions`) inside make sits under a class test on <x> that "
+    "establishes `cls` itself - a test against _Composite, a tuple of "
+    "classes or one fixed subclass is a violation (x and (a or b) would "
+    "become x and a and b).  For block states "
     "the rules decide wiring facts that are necessary for 'a merge yields "
     "exactly the union of the values under every valuation': R18.2 "
     "conditioning combines with conditions.And over every binding (TRUE is "
@@ -60,6 +71,10 @@ ASSUMPTIONS = [
     "state's condition (true for states produced by store_local, "
     "with_condition and merge_into; not checked for hand-built states)",
     "values are hashable (they key the value->condition map)",
+    "_And and _Or are the only subclasses of _Composite and inherit make "
+    "unchanged, so inside make `cls` is the connective being built and "
+    "isinstance(x, cls) / type(x) is cls both mean 'a term of that "
+    "connective' (checked: no own make/__init__)",
 ]
 
 
